@@ -53,13 +53,13 @@ def gen(rng, ctx):
         # in-place edit between two rounds of queries on the SAME Circuit object (stale caches)
         plain = [n for n in nodes if "." not in n]
         edit = rng.choice([["relabel", rng.choice(plain)], ["add_node", rng.choice(plain)], ["remove", rng.choice(plain)], ["connect", rng.choice(plain), rng.choice(plain)]])
-    return {"c": cd, "kind": kind, "lists": lists, "singles": singles, "k": rng.randint(1, 4), "via": rng.choice(["graph", "graph", "api"]), "edit": edit}
+    return {"c": cd, "kind": kind, "lists": lists, "singles": singles, "k": rng.randint(1, 4), "via": rng.choice(["graph", "sparse", "api"]), "edit": edit}
 
 
 def check(case, ctx):
     cg = ctx.cg
     cd = case["c"]
-    via = case["via"] if "cyclic" not in case["kind"] else "graph"
+    via = case["via"] if ("cyclic" not in case["kind"] or case["via"] == "sparse") else "graph"
     c = G.build(cg, cd, via)
     queries(case, ctx, c, case["singles"], case["lists"])
     ed = case.get("edit")
